@@ -525,6 +525,7 @@ class ProgGen(object):
 
     def _int(self, depth, leaf, extra):
         r = self.rng
+        leaf = leaf or depth <= 0
         srcs = self._leaf_sources('integer', extra)
         if leaf:
             if srcs and r.random() < 0.75:
@@ -556,6 +557,7 @@ class ProgGen(object):
 
     def _str(self, depth, leaf, extra):
         r = self.rng
+        leaf = leaf or depth <= 0
         srcs = self._leaf_sources('string', extra)
         if leaf:
             if srcs and r.random() < 0.7:
@@ -575,6 +577,7 @@ class ProgGen(object):
 
     def _bool(self, depth, leaf, extra):
         r = self.rng
+        leaf = leaf or depth <= 0
         srcs = self._leaf_sources('boolean', extra)
         if leaf:
             if srcs and r.random() < 0.85:
@@ -698,9 +701,9 @@ class ProgGen(object):
         self.spend()
         choices = [('assign', 18), ('select_from', 12), ('select_rel', 14), ('create', 7)]
         if self.allow_mutation:
-            choices += [('setattr', 12), ('relate', 8), ('unrelate', 6), ('create_relate', 4)]
+            choices += [('setattr', 12), ('relate', 8), ('unrelate', 9), ('create_relate', 4)]
             if self.allow_delete:
-                choices += [('delete', 4)]
+                choices += [('delete', 7), ('delete_sel', 5)]
         if self.calls:
             choices += [('call', 8)]
         if depth < self.max_depth and self.budget > 2:
@@ -796,7 +799,7 @@ class ProgGen(object):
             self.declare(name, V('inst', cls, ne=False))
         return [['select_from', card, name, cls, wh]]
 
-    def st_select_rel(self, depth):
+    def st_select_rel(self, depth, force_many=False):
         r = self.rng
         starts = [(n, v) for n, v in sorted(self.visible().items()) if v.ty in ('inst', 'set')]
         if self.self_cls:
@@ -816,6 +819,8 @@ class ProgGen(object):
             cls = e[1]
             many_possible = many_possible or e[4]
         card = r.choice(['many', 'many', 'any', 'one']) if many_possible else r.choice(['one', 'one', 'any', 'many'])
+        if force_many:
+            card = 'many'
         wh = self.where_for(cls)
         h = ['self'] if n == 'self' else ['var', n]
         if card == 'many':
@@ -863,6 +868,19 @@ class ProgGen(object):
         cls = self.lookup(name).cls
         self.mark_deleted(cls)
         return [['delete', name]]
+
+    def st_delete_sel(self, depth):
+        """select an instance and delete it (guarded): deletes that hit linked instances"""
+        r = self.rng
+        cls = r.choice(['A', 'B', 'X', 'L'])
+        for modes in self.loop_del:
+            if modes.get(cls, 'none') != 'any':
+                return None
+        name = self.fresh(cls.lower())
+        sel = ['select_from', 'any', name, cls, self.where_for(cls)]
+        self.declare(name, V('inst', cls, ne=False))
+        self.mark_deleted(cls)
+        return [sel, ['if', ['un', 'not_empty', ['var', name]], [['delete', name]], [], None]]
 
     def guard_ne(self, names, body):
         """if (not_empty a and not_empty b ...) body end if;   for the handles that are not surely non-empty"""
@@ -1158,10 +1176,13 @@ class ProgGen(object):
         sets = self.vars_of('set')
         pre = []
         if not sets or r.random() < 0.3:
-            s = self.st_select_from(depth) if r.random() < 0.5 else (self.st_select_rel(depth) or self.st_select_from(depth))
-            if s[0][1] != 'many':
-                s = [['select_from', 'many', self.fresh('as'), 'A', None]]
-                self.declare(s[0][2], V('set', 'A'))
+            s = None
+            if r.random() < 0.5:
+                s = self.st_select_rel(depth, force_many=True)
+            if s is None:
+                cls0 = r.choice(['A', 'B', 'X', 'L'])
+                s = [['select_from', 'many', self.fresh(cls0.lower() + 's'), cls0, self.where_for(cls0)]]
+                self.declare(s[0][2], V('set', cls0))
             pre = s
             setv = s[0][2]
         else:
